@@ -12,7 +12,7 @@ defprog! {
       relation edge(u32, u32) [input];
       relation path(u32, u32) [];
    }
-   gens: [("random", gens::random), ("diamond", gens::diamond), ("chain", gens::chain), ("dense", gens::dense)];
+   gens: [("random", gens::random), ("diamond", gens::diamond), ("chain", gens::chain), ("dense", gens::dense), ("closed", gens::closed)];
    rules: {
       path(x, y) <-- edge(x, y);
       path(x, z) <-- edge(x, y), path(y, z);
